@@ -56,7 +56,8 @@ Props(g) == IF g = "Link" THEN LinkProps ELSE ObjectProps \o OwnProps(g)
 
 SourceProps == << R("content", "nlv"), R("mediaType", "mime") >>
 EndpointsProps == << R("uploadMedia", "item"), R("oauthAuthorizationEndpoint", "item"), R("oauthTokenEndpoint", "item"),
-                     R("provideClientKey", "item"), R("signClientKey", "item"), R("sharedInbox", "item") >>
+                     R("provideClientKey", "item"), R("signClientKey", "item"), R("sharedInbox", "item"),
+                     R("proxyUrl", "item") >>       \* (ActivityPub 4.1 lists six endpoints; the library's struct had five of them and uploadMedia)
 PubKeyProps == << R("id", "id"), R("owner", "iri"), R("publicKeyPem", "str") >>
 
 Terms(rows) == {rows[i].t : i \in 1..Len(rows)}
